@@ -14,7 +14,7 @@ EDIT_OPS = {"getattr", "setattr", "delattr", "setkey", "delkey", "appendchart", 
 SAVE_OPS = {"save", "reopen", "load"}
 READ_OPS = {"readnotes", "readtiming"}
 CONVERT_OPS = {"tossc"}
-ATTRS = {"sm": ["title", "artist", "stops", "bgchanges"], "ssc": ["title", "artist", "stops", "bgchanges"]}
+ATTRS = {"sm": ["title", "artist", "stops", "bgchanges"], "ssc": ["title", "artist", "stops", "bgchanges", "version"]}
 SMF = ["stepstype", "description", "difficulty", "meter", "radarvalues", "notes"]
 SAFE = "abcXYZ019 _-.,=()é猫"
 
@@ -135,7 +135,7 @@ def session(rid, seed):
                         c[SMF[f].upper()] = v
                     log("setchartfield", sf, j=j + 1, f=f + 1, v=cps(v))
                 else:
-                    name = rng.choice(["NOTES", "STEPSTYPE", "CREDIT", "XCHART", "NOTES2"])
+                    name = rng.choice(["NOTES", "STEPSTYPE", "CREDIT", "XCHART", "NOTES2", "BPMS", "OFFSET", "STOPS"])
                     v = val(rng)
                     if name == "NOTES" and rng.random() < 0.6:
                         c.notes = v                       # attribute: goes to NOTES2 when that alias is the one present
